@@ -546,6 +546,43 @@ pub fn run(o: &Opts) -> Report {
             }
         }
     }
+    // `read_huffman_code` itself (hook 910fc7a): the real code reader followed by symbol reads with
+    // the tree it returns, against the model CodeRead.readCode + Huff.readSym (tie) and against the
+    // specification's ReadCode + canonical decoder (C01.read_code_is_spec is the theorem between
+    // the two).  Whole, truncated and bit-flipped serialisations of every alphabet of the format.
+    let nrc = if o.thorough() { 6000 } else { 900 };
+    let mut rlines = Vec::new();
+    let mut rgot = Vec::new();
+    for i in 0..nrc {
+        let alphabet = *rng.pick(&[256usize, 280, 40, 256 + 24 + 2, 256 + 24 + 64, 256 + 24 + 2048, 256 + 24 + 1024]);
+        let (mut bytes, _lengths) = crate::vp8lgen::serialised_code(&mut rng, alphabet);
+        match i % 6 {
+            0 => { let k = rng.below(bytes.len() as u64 + 1) as usize; bytes.truncate(k); }
+            1 => { if !bytes.is_empty() { let k = rng.below(bytes.len() as u64 * 8) as usize; bytes[k / 8] ^= 1 << (k % 8); } }
+            2 => { let extra = rng.bytes(6); bytes.extend_from_slice(&extra); }
+            _ => {}
+        }
+        let n = 12usize;
+        let got = match catch(|| hk::read_code_then_symbols(&bytes, alphabet as u16, n)) {
+            Ok(Ok((single, syms, err))) => format!("ok single={} syms={} end={}", single as u8, join(&syms), if err.is_none() { "ok" } else { "err" }),
+            Ok(Err(_)) => "err".to_string(),
+            Err(m) => format!("PANIC {m}"),
+        };
+        rlines.push(format!("coderead {alphabet} {n} {}", if bytes.is_empty() { "-".to_string() } else { hex(&bytes) }));
+        rgot.push(got);
+    }
+    let rreplies = ask_parallel(&o.drv, &rlines, 8);
+    for ((line, got), reply) in rlines.iter().zip(&rgot).zip(&rreplies) {
+        rep.case(line, true);
+        let mut parts = reply.split(" ;; ");
+        let (spec, model) = (parts.next().unwrap_or(""), parts.next().unwrap_or(""));
+        rep.hit(if spec == "err" { "read_code_rejected" } else if spec.contains("single=1") { "read_code_single" } else { "read_code_tree" });
+        if got != spec {
+            rep.disagree(Disagreement { case: line.clone(), got: got.clone(), expected: spec.into(), class: "violation", obligation: "C01: read_huffman_code accepts exactly the serialised prefix codes the specification accepts and the tree it returns decodes the following bits like the specification's canonical code".into(), detail: format!("model says {model}") });
+        } else if got != model {
+            rep.disagree(Disagreement { case: line.clone(), got: got.clone(), expected: model.into(), class: "correspondence", obligation: "tie2: read_huffman_code / read_huffman_code_lengths = CodeRead.readCode".into(), detail: String::new() });
+        }
+    }
     for (name, s) in crafted() {
         one(&mut drv, &mut rep, &name, &s, dims_of(&s).map(|(w, h)| w * h <= 2500).unwrap_or(false));
     }
